@@ -2,6 +2,7 @@ import Driver.Proto
 import TonicModel.Basic.HealthTypes
 import TonicModel.Basic.HealthLin
 import TonicModel.Model.Health
+import TonicModel.Model.HealthLife
 import TonicModel.Spec.Health
 namespace DriverC18
 open Proto Health
@@ -437,16 +438,118 @@ def handleConc (progs : List (List Op)) (obs : List String) : String × String :
         (recs.filter (fun x => x.1 == tid)).length < ops.length)
       if short then ("not-linearizable", "fail:answer-count")
       else
-        let m := match Lin.linearizable Health.accept (fun s => s.watchers.length) Health.init tasks with
+        let v := Lin.linearizable Spec.Health.accept Spec.Health.numWatches [] tasks
+        -- a history the property's clauses reject is a failing input whatever the model says of
+        -- it: the model searches are skipped then (a change that breaks most histories must not
+        -- cost three exhaustive searches per case)
+        let m := if v == .no then .no else
+          match Lin.linearizable Health.accept (fun s => s.watchers.length) Health.init tasks with
           | .no => Lin.linearizable acceptMD (fun s => s.h.watchers.length) ⟨Health.init, []⟩ tasks
           | r => r
-        let v := Lin.linearizable Spec.Health.accept Spec.Health.numWatches [] tasks
         -- a search that ran out of budget decides nothing (neither a disagreement nor a failure)
         (if m == .no then "not-linearizable" else String.intercalate " " obs,
          if v == .no then "fail:not-linearizable" else "ok")
 
+/-! ### `life` cases (audit aC18): handles, independent pairs, stack variants
+
+`life st<k> p<pair> <op> p<pair> <op> …` — see harness/src/c18_x.rs.  The stack token is checked
+and otherwise ignored: what sits between the generated client and the generated server (Routes,
+an interceptor, compression, size limits) is no part of the model, so a stack that changes an
+answer shows as a failing clause.  The process model (`Health.lrun`) gives the skeleton (which
+items were health operations that happened); each pair's part is then handled exactly like the
+`seq` case made of the health operations that happened on that pair
+(`C18_pair_is_own_history`: that is what the process model answers). -/
+
+/-- `NamedService::NAME` of the two user-defined services of c18_x.rs. -/
+def xName : String → Option Name
+  | "0" => some "helloworld.Greeter".toUTF8.toList
+  | "1" => some "grpc.health.v1.health".toUTF8.toList
+  | _ => none
+
+def pairOf (t : String) : Option Nat :=
+  if t.startsWith "p" then (nat? (t.drop 1).toString).bind (fun p => if p < 2 then some p else none) else none
+
+def var? (t : String) : Option Nat := (nat? t).bind (fun v => if v < 3 then some v else none)
+
+def parseLife : Nat → List String → Option (List LItem)
+  | 0, _ => none
+  | _, [] => some []
+  | f + 1, p :: "s" :: r :: n :: st :: rest => do
+    let p ← pairOf p; let r ← var? r; let n ← unhex n; let st ← stOf st
+    (⟨p, .rep r (.set n st)⟩ :: ·) <$> parseLife f rest
+  | f + 1, p :: "sv" :: r :: rest => do
+    let p ← pairOf p; let r ← var? r
+    (⟨p, .rep r (.set svcName .serving)⟩ :: ·) <$> parseLife f rest
+  | f + 1, p :: "nsv" :: r :: rest => do
+    let p ← pairOf p; let r ← var? r
+    (⟨p, .rep r (.set svcName .notServing)⟩ :: ·) <$> parseLife f rest
+  | f + 1, p :: "svx" :: r :: k :: rest => do
+    let p ← pairOf p; let r ← var? r; let n ← xName k
+    (⟨p, .rep r (.set n .serving)⟩ :: ·) <$> parseLife f rest
+  | f + 1, p :: "nsvx" :: r :: k :: rest => do
+    let p ← pairOf p; let r ← var? r; let n ← xName k
+    (⟨p, .rep r (.set n .notServing)⟩ :: ·) <$> parseLife f rest
+  | f + 1, p :: "c" :: r :: n :: rest => do
+    let p ← pairOf p; let r ← var? r; let n ← unhex n
+    (⟨p, .rep r (.clear n)⟩ :: ·) <$> parseLife f rest
+  | f + 1, p :: "k" :: c :: n :: rest => do
+    let p ← pairOf p; let c ← var? c; let n ← unhex n
+    (⟨p, .cli c (.check n)⟩ :: ·) <$> parseLife f rest
+  | f + 1, p :: "w" :: c :: n :: rest => do
+    let p ← pairOf p; let c ← var? c; let n ← unhex n
+    (⟨p, .cli c (.watch n)⟩ :: ·) <$> parseLife f rest
+  | f + 1, p :: "n" :: w :: rest => do
+    let p ← pairOf p; let w ← nat? w
+    (⟨p, .str (.next w)⟩ :: ·) <$> parseLife f rest
+  | f + 1, p :: "d" :: w :: rest => do
+    let p ← pairOf p; let w ← nat? w
+    (⟨p, .str (.drop w)⟩ :: ·) <$> parseLife f rest
+  | f + 1, p :: "rd" :: r :: rest => do
+    let p ← pairOf p; let r ← var? r
+    (⟨p, .rdrop r⟩ :: ·) <$> parseLife f rest
+  | f + 1, p :: "rc" :: r :: q :: rest => do
+    let p ← pairOf p; let r ← var? r; let q ← var? q
+    (⟨p, .rclone r q⟩ :: ·) <$> parseLife f rest
+  | f + 1, p :: "kd" :: c :: rest => do
+    let p ← pairOf p; let c ← var? c
+    (⟨p, .cdrop c⟩ :: ·) <$> parseLife f rest
+  | f + 1, p :: "kc" :: c :: q :: rest => do
+    let p ← pairOf p; let c ← var? c; let q ← var? q
+    (⟨p, .cclone c q⟩ :: ·) <$> parseLife f rest
+  | _, _ => none
+
+def lansTok : LAns → String
+  | .eff _ => "."
+  | .ok => "ok"
+  | .noh => "noh"
+
+def handleLife (items : List LItem) (obs : List String) : String × String :=
+  let skel := "L" :: (Health.lrun Health.linit items).map (fun x => lansTok x.2)
+  let ops0 := Health.effective 0 Health.liveInit Health.liveInit items
+  let ops1 := Health.effective 1 Health.liveInit Health.liveInit items
+  let (o0, o1, skelOk, shape) : List String × List String × Bool × Bool :=
+    match splitBar obs with
+    | [oskel, o0, o1] => (o0, o1, oskel == skel, true)
+    | _ => ([], [], false, false)
+  let r0 := handleSeq ops0 o0
+  let r1 := handleSeq ops1 o1
+  let line := String.intercalate " " skel ++ " | " ++ r0.1 ++ " | " ++ r1.1
+  let verdict :=
+    if obs == ["panic"] then "fail:panic"
+    else if !shape then "fail:unrecognised-answer"
+    -- which operations happened is bookkeeping of the harness; it must be the process model's
+    else if !skelOk then "fail:handle-bookkeeping"
+    else if r0.2 != "ok" then r0.2
+    else r1.2
+  (line, verdict)
+
 def handle (case obs : List String) : String × String :=
   match case with
+  | "life" :: st :: rest =>
+    if !["st0", "st1", "st2", "st3", "st4"].contains st || rest.isEmpty then bad
+    else match parseLife (rest.length + 1) rest with
+    | none => bad
+    | some items => handleLife items obs
   | "seq" :: rest =>
     match parseOps (rest.length + 1) rest with
     | none => bad
